@@ -141,7 +141,7 @@ Iface(j, un) ==
 (* universes have no two fields with the same JSON name, so the dominance  *)
 (* rules of typeFields never come into play.)                              *)
 (***************************************************************************)
-QuotableKind(v) == v.g \in {"bool", "int", "float", "str"}
+QuotableKind(v) == v.g \in {"bool", "int", "float", "str", "number"}     \* (json.Number is a string type)
 \* `,string` applies to bool, integer, float and string fields and to pointers to them (typeFields looks through ONE pointer)
 Quotable(v) == QuotableKind(v) \/ (v.g = "ptr" /\ QuotableKind(v.v))
 RECURSIVE FlatFields(_, _)
@@ -191,9 +191,12 @@ DecQuoted(ft, cur, j) ==
        ELSE IF s[1] = 34 THEN
               LET p == ParseText(s) IN
               IF ~(p.ok /\ p.v.t = "str" /\ s[Len(s)] = 34) THEN R(cur, "hard")          \* unquoteBytes fails: return err
-              ELSE IF ft.g = "str" THEN R(GS(Utf8Seq(p.v.cp)), "") ELSE R(cur, "saved")
+              ELSE IF ft.g = "str" THEN R(GS(Utf8Seq(p.v.cp)), "")
+              ELSE IF ft.g = "number" THEN (IF IsJsonNumber(Utf8Seq(p.v.cp)) THEN R(GNum(Utf8Seq(p.v.cp)), "") ELSE R(cur, "hard"))
+              ELSE R(cur, "saved")
        ELSE IF s[1] # 45 /\ ~DDigit(s[1]) THEN R(cur, "hard")
        ELSE CASE ft.g = "int"   -> IntResult(cur, s)
+              [] ft.g = "number" -> R(GNum(s), "")                          \* stored as it is: the content is not checked here
               [] ft.g = "float" -> IF ~IsJsonNumber(s) THEN R(cur, "dc")     \* strconv.ParseFloat on text that is not a JSON number: not modelled
                                    ELSE IF FloatOverflow(s) THEN R(cur, "saved") ELSE R(GFl(s), "")
               [] OTHER          -> R(cur, "hard")       \* a number for a string or bool field: return err
@@ -223,9 +226,11 @@ Dec(T, cur, j, un) ==
     [] j.t = "num" ->
          CASE T.g = "int"   -> IntResult(cur, j.lit)
            [] T.g = "float" -> IF FloatOverflow(j.lit) THEN R(cur, "saved") ELSE R(GFl(j.lit), "")
+           [] T.g = "number" -> R(GNum(j.lit), "")                         \* a json.Number target keeps the literal
            [] OTHER         -> R(cur, "saved")
     [] j.t = "str" ->
          CASE T.g = "str"   -> R(GS(Utf8Seq(j.cp)), "")
+           [] T.g = "number" -> IF IsJsonNumber(Utf8Seq(j.cp)) THEN R(GNum(Utf8Seq(j.cp)), "") ELSE R(cur, "hard")   \* "invalid number literal": return err
            [] T.g = "bytes" -> LET b == B64Dec(Utf8Seq(j.cp)) IN IF b.ok THEN R(GBy(b.b), "") ELSE R(cur, "saved")
            [] OTHER         -> R(cur, "saved")
     [] j.t = "arr" ->
